@@ -33,12 +33,17 @@ SCHEMA = {
     "OP": {"lists": {}, "refs": {}, "reflists": {}},
     "FE": {"lists": {}, "refs": {"source": "OP", "target": "IP"}, "reflists": {}},
     "C": {"lists": {"components": "C"}, "refs": {}, "reflists": {"allocated_functions": "F"}},
-    "PK": {"lists": {"packages": "PK", "classes": "K"}, "refs": {}, "reflists": {}},
-    "K": {"lists": {"owned_properties": "PR"}, "refs": {"super": "K"}, "reflists": {}},
+    # `datatypes` is a list with SEVERAL creatable classes: a member cannot be created without its `_type`
+    "PK": {"lists": {"packages": "PK", "classes": "K", "datatypes": "EN"}, "refs": {}, "reflists": {}},
+    "K": {"lists": {"owned_properties": "PR"}, "refs": {"super": "K"}, "reflists": {"realized_classes": "K"}},
     "PR": {"lists": {}, "refs": {"type": "K"}, "reflists": {}},
+    "EN": {"lists": {"owned_literals": "LIT"}, "refs": {"domain_type": "K"}, "reflists": {}},
+    "LIT": {"lists": {}, "refs": {}, "reflists": {}},
 }
 TYPEHINT = {"F": "LogicalFunction", "IP": "FunctionInputPort", "OP": "FunctionOutputPort", "FE": "FunctionalExchange",
-            "C": "LogicalComponent", "PK": "DataPkg", "K": "Class", "PR": "Property"}
+            "C": "LogicalComponent", "PK": "DataPkg", "K": "Class", "PR": "Property", "EN": "Enumeration",
+            "LIT": "EnumerationLiteral"}
+MUST_HINT = {"EN"}      # members of a multi-class list: the `_type` key decides which class is created
 STRS = ["description", "summary"]
 UUID_RE = re.compile(r"[0-9a-f]{8}-[0-9a-f]{4}-[0-9a-f]{4}-[0-9a-f]{4}-[0-9a-f]{12}")
 XSI_TYPE = "{http://www.w3.org/2001/XMLSchema-instance}type"
@@ -186,26 +191,37 @@ class Item:
     def val(self):
         if self.ref is not None:
             return [1, self.ref.val()]
-        return [0, decl_val(self.decl), self.name, [[k, sval_val(v)] for k, v in self.simple],
-                [[a, [i.val() for i in its]] for a, its in self.complex]]
+        # attributes in the order of the keys of the YAML mapping (the code walks the mapping)
+        pos = {k: i for i, k in enumerate(self.yaml(shallow=True))}
+        simple = sorted(self.simple, key=lambda kv: pos[kv[0]])
+        cx = sorted(self.complex, key=lambda g: pos[g[0]])
+        return [0, decl_val(self.decl), self.name, [[k, sval_val(v)] for k, v in simple],
+                [[a, [i.val() for i in its]] for a, its in cx]]
 
-    def yaml(self):
+    def yaml(self, shallow=False):
         if self.ref is not None:
             return self.ref.yaml()
-        d = {"name": self.name}
-        if self.hint:
+        d = {} if self.noname else {"name": self.name}
+        if self.hint or self.typ in MUST_HINT:
             d["_type"] = TYPEHINT[self.typ]
         if self.decl is not None and self.decl_first:
             d["promise_id"] = f"p{self.decl}"
         for k, v in self.simple:
             d[k] = sval_yaml(v)
         for a, its in self.complex:
-            d[a] = [i.yaml() for i in its]
+            d[a] = None if shallow else [i.yaml() for i in its]
         if self.decl is not None and not self.decl_first:
             d["promise_id"] = f"p{self.decl}"
+        if self.keyorder is not None:
+            # the position of the steering keys (`_type`, promise_id) among the attributes has no influence on the result
+            ks = list(d)
+            ks = [ks[i] for i in sorted(range(len(ks)), key=lambda i: (self.keyorder * (i + 3) * 7919) % 101)]
+            d = {k: d[k] for k in ks}
         return d
 
     decl_first = True
+    noname = False          # an object without a name (key "" in the model)
+    keyorder = None         # None: name, _type, [promise_id], attributes, [promise_id]; a number: that permutation of the keys
 
     def deferrable(self):
         if self.ref is not None:
@@ -224,7 +240,7 @@ class SItem:
 
     def yaml(self):
         f = {"name": self.name}
-        if self.hint:
+        if self.hint or self.typ in MUST_HINT:
             f["_type"] = TYPEHINT[self.typ]
         for k, v in self.find:
             f[k] = sval_yaml(v)
@@ -295,13 +311,14 @@ class Plan:
     def __init__(self):
         self.instrs: list[Instr] = []
         self.objs: list[Obj] = []
-        self.expect = "ok"                 # ok | unf | dup
+        self.expect = "ok"                 # ok | unf | dup | same (whatever happens, it happens in every order)
         self.stable = True                 # no list gets a deferrable non-last member
         self.promise_target = {}           # p -> key
         self.ref_expect = []               # (owner key, target key)
         self.list_expect = []              # (owner key, attr, [member keys in the order of the `set` list])
         self.found_keys = []               # uuids of base objects matched by sync entries
         self.features = set()
+        self.model = True                  # compare the runs with the Coq model as well
 
 
 def gen_plan(rng, base: Base, n: int, *, stable=True, malform=None, feature_bias=None) -> Plan:
@@ -355,6 +372,9 @@ def gen_plan(rng, base: Base, n: int, *, stable=True, malform=None, feature_bias
     for pr in by_type("PR"):
         if by_type("K") and rng.random() < 0.8:
             pr.refs["type"] = rng.choice(by_type("K"))
+    for en in by_type("EN"):
+        if by_type("K") and rng.random() < 0.8:
+            en.refs["domain_type"] = rng.choice(by_type("K"))
     free_f = by_type("F")
     rng.shuffle(free_f)
     for c in by_type("C"):
@@ -685,6 +705,11 @@ def gen_plan(rng, base: Base, n: int, *, stable=True, malform=None, feature_bias
         depth = max(depth, d)
     if depth >= 2:
         plan.features.add("chained-promises")
+    for o in objs:
+        if o.typ in MUST_HINT:
+            plan.features.add("multi-class-list")
+            if o.refs:
+                plan.features.add("multi-class-list:member-waits")
     if any(isinstance(v, Ref) and v.kind == "prom" for ins in instrs for _, v in ins.set):
         plan.features.add("set-promise-value")
     if any(isinstance(v, Ref) and v.kind == "obj" for ins in instrs for _, v in ins.set):
@@ -846,6 +871,255 @@ def gen_plan(rng, base: Base, n: int, *, stable=True, malform=None, feature_bias
     return plan
 
 
+# ------------------------------------------------------------------ systematic streams (hand-built plans)
+def _fresh(base: Base, prefix: str):
+    i = 0
+    while True:
+        nm = f"{prefix}{i}"
+        i += 1
+        if nm not in base.names:
+            yield nm
+
+
+def _item(rng, name, typ, *, decl=None, simple=None, complex=None, hint=False, noname=False) -> Item:
+    it = Item(name=name, typ=typ, decl=decl, simple=simple, complex=complex, hint=hint)
+    it.decl_first = rng.random() < 0.5
+    it.keyorder = rng.choice([None, None, 1, 2, 3, 5, 8, 13])
+    it.noname = noname
+    return it
+
+
+def _prom(p, key="?"):
+    return Ref("prom", key, p=p)
+
+
+def option_matrix(rng, base: Base):
+    """ONE creation that has to wait for a promise another instruction declares, with every combination of the
+    optional keys of an object description: `_type` (in a single-class list, where it is redundant, and in a
+    multi-class list, where the class depends on it), promise_id (absent / unused / used as a parent / used as a
+    value — the user then waits for the waiting creation), nested creations, list members; created by extend /
+    create or by a sync entry that finds nothing.  Every plan is run under all permutations."""
+    PK, F = base.key["PK"], base.key["F"]
+    nm = _fresh(base, "mx")
+    plans = []
+    for kind in ("K", "EN", "FE", "sK", "sEN"):
+        typ, sync = kind.lstrip("s"), kind.startswith("s")
+        hints = (True,) if typ in MUST_HINT else (False, True)
+        pids = ("none", "unused", "parent", "value") if typ != "FE" else ("none", "unused", "parent")
+        nests = (False, True) if (typ in ("K", "EN") and not sync) else (False,)
+        membs = (False, True) if typ == "K" else (False,)
+        for hint, pidmode, nested, members in itertools.product(hints, pids, nests, membs):
+            plan = Plan()
+            D = next(nm)
+            pD = 2 if pidmode != "none" else None
+            objs, instrs = [], []
+            if typ == "FE":
+                ni, no = next(nm), next(nm)
+                objs += [Obj(0, ni, "IP", ("base", "F"), "inputs"), Obj(1, no, "OP", ("base", "F"), "outputs"),
+                         Obj(2, D, "FE", ("base", "F"), "exchanges")]
+                g_in = ("inputs", [_item(rng, ni, "IP", decl=1)])
+                g_out = ("outputs", [_item(rng, no, "OP", decl=3)])
+                if rng.random() < 0.5:            # the two awaited promises come from two instructions
+                    for g in (g_in, g_out):
+                        ins = Instr(Ref("obj", F)); ins.extend.append(g); instrs.append(ins)
+                else:
+                    ins = Instr(Ref("obj", F)); ins.extend += [g_in, g_out]; instrs.append(ins)
+                simple = [("source", _prom(3, no)), ("target", _prom(1, ni))]
+                rng.shuffle(simple)
+                use = Instr(Ref("obj", F))
+                getattr(use, rng.choice(["extend", "extend", "create"])).append(
+                    ("exchanges", [_item(rng, D, "FE", decl=pD, simple=simple, hint=hint)]))
+                instrs.append(use)
+                plan.promise_target = {1: ni, 3: no}
+                plan.ref_expect = [(D, ni), (D, no)]
+            else:
+                G, T = next(nm), next(nm)
+                lst, refattr = ("classes", "super") if typ == "K" else ("datatypes", "domain_type")
+                gobj = Obj(0, G, "PK", ("base", "PK"), "packages")
+                tobj = Obj(1, T, "K", gobj, "classes")
+                dobj = Obj(2, D, typ, ("base", "PK"), lst)
+                objs += [gobj, tobj, dobj]
+                tcomplex = []
+                if pidmode == "value":
+                    q = next(nm)
+                    objs.append(Obj(3, q, "PR", tobj, "owned_properties"))
+                    tcomplex.append(("owned_properties", [_item(rng, q, "PR", simple=[("type", _prom(2, D))])]))
+                    plan.ref_expect.append((q, D))
+                decl_i = Instr(Ref("obj", PK))
+                decl_i.extend.append(("packages", [_item(rng, G, "PK", complex=[
+                    ("classes", [_item(rng, T, "K", decl=1, complex=tcomplex)])])]))
+                instrs.append(decl_i)
+                plan.promise_target = {1: T}
+                plan.ref_expect.append((D, T))
+                use = Instr(Ref("obj", PK))
+                if sync:
+                    props = [(refattr, _prom(1, T))]
+                    if rng.random() < 0.5:
+                        props.insert(0, ("description", "made by a sync entry"))
+                    nfind = rng.choice([0, 0, len(props)])
+                    sets = props[nfind:]
+                    if members:
+                        sets = sets + [("realized_classes", [_prom(1, T)])]
+                    x = SItem(False, pD, D, typ, props[:nfind], sets, hint=hint)
+                    use.sync.append((lst, [x]))
+                else:
+                    cx = []
+                    if nested and typ == "K":
+                        P = next(nm)
+                        objs.append(Obj(4, P, "PR", dobj, "owned_properties"))
+                        ps = [("type", _prom(1, T))] if rng.random() < 0.5 else []
+                        cx.append(("owned_properties", [_item(rng, P, "PR", simple=ps, hint=rng.random() < 0.5)]))
+                    elif nested:
+                        L1, L2 = next(nm), next(nm)
+                        objs += [Obj(4, L1, "LIT", dobj, "owned_literals"), Obj(5, L2, "LIT", dobj, "owned_literals")]
+                        cx.append(("owned_literals", [_item(rng, L1, "LIT"), _item(rng, L2, "LIT", hint=True)]))
+                    if members:
+                        cx.append(("realized_classes", [Item(ref=_prom(1, T))]))
+                    rng.shuffle(cx)
+                    simple = [(refattr, _prom(1, T))]
+                    if rng.random() < 0.5:
+                        simple.insert(rng.randint(0, 1), ("description", "waits for %s" % T))
+                    getattr(use, rng.choice(["extend", "extend", "create"])).append(
+                        (lst, [_item(rng, D, typ, decl=pD, simple=simple, complex=cx, hint=hint)]))
+                instrs.append(use)
+            if pD is not None:
+                plan.promise_target[pD] = D
+            if pidmode == "parent":
+                user = Instr(_prom(pD, D))
+                user.set.append(("summary", "set through the promise"))
+                instrs.append(user)
+            rng.shuffle(instrs)
+            plan.instrs, plan.objs = instrs, objs
+            plan.features = {"matrix", f"matrix:{kind}", f"matrix:promise_id-{pidmode}",
+                             "matrix:_type" if hint else "matrix:no-_type"}
+            if nested:
+                plan.features.add("matrix:nested")
+            if members:
+                plan.features.add("matrix:list-members")
+            if hint and typ in MUST_HINT:
+                plan.features.add("matrix:_type-decides-class")
+            plans.append(plan)
+    return plans
+
+
+def twin_plans(rng, base: Base):
+    """two or three VALUE-EQUAL actions that wait for the same promise: identical creations (named and unnamed; in
+    one list of one instruction and as identical instructions), identical instructions below a promised parent
+    (extend and set), identical `set`s of a reference, identical sync entries, the same !promise listed twice.
+    Every requested action has to happen as often as it is written down, whatever the order of the instructions."""
+    PK, F, C = base.key["PK"], base.key["F"], base.key["C"]
+    nm = _fresh(base, "tw")
+    plans = []
+
+    def done(plan, instrs, objs, feature, m):
+        rng.shuffle(instrs)
+        plan.instrs, plan.objs = instrs, objs
+        plan.features = {"twins", f"twins:{feature}", f"twins:x{m}"}
+        plans.append(plan)
+
+    def decl_class(plan, objs):
+        G, T = next(nm), next(nm)
+        gobj = Obj(0, G, "PK", ("base", "PK"), "packages")
+        objs += [gobj, Obj(1, T, "K", gobj, "classes")]
+        ins = Instr(Ref("obj", PK))
+        ins.extend.append(("packages", [_item(rng, G, "PK", complex=[("classes", [_item(rng, T, "K", decl=1)])])]))
+        plan.promise_target[1] = T
+        return ins, T
+
+    for m in (2, 3):
+        # identical creations that wait for the value of an attribute
+        for typ, split, noname in (("FE", False, False), ("FE", False, True), ("FE", True, False), ("K", False, False),
+                                   ("K", True, False), ("EN", False, False)):
+            plan, objs, instrs = Plan(), [], []
+            D = "" if noname else next(nm)
+            if typ == "FE":
+                ni, no = next(nm), next(nm)
+                objs += [Obj(0, ni, "IP", ("base", "F"), "inputs"), Obj(1, no, "OP", ("base", "F"), "outputs")]
+                ins = Instr(Ref("obj", F))
+                ins.extend += [("inputs", [_item(rng, ni, "IP", decl=1)]), ("outputs", [_item(rng, no, "OP", decl=3)])]
+                instrs.append(ins)
+                plan.promise_target = {1: ni, 3: no}
+                parent, lst, simple = F, "exchanges", [("source", _prom(3, no)), ("target", _prom(1, ni))]
+                if not noname:
+                    plan.ref_expect = [(D, ni), (D, no)]
+            else:
+                ins, T = decl_class(plan, objs)
+                instrs.append(ins)
+                parent = PK
+                lst, simple = ("classes", [("super", _prom(1, T))]) if typ == "K" else ("datatypes", [("domain_type", _prom(1, T))])
+                plan.ref_expect = [(D, T)]
+            hint, ko, op = rng.random() < 0.5, rng.choice([None, 1, 2, 3]), rng.choice(["extend", "extend", "create"])
+
+            def twin():
+                it = Item(name=D, typ=typ, simple=list(simple), hint=hint)
+                it.noname, it.keyorder = noname, ko
+                return it
+            objs += [Obj(10 + j, D, typ, ("base", "F" if typ == "FE" else "PK"), lst) for j in range(m)]
+            if split:
+                for _ in range(m):
+                    use = Instr(Ref("obj", parent)); getattr(use, op).append((lst, [twin()])); instrs.append(use)
+            else:
+                use = Instr(Ref("obj", parent)); getattr(use, op).append((lst, [twin() for _ in range(m)])); instrs.append(use)
+            done(plan, instrs, objs, f"create-{typ}" + ("-unnamed" if noname else "") + ("-as-instructions" if split else ""), m)
+        # identical instructions below a parent that is a promise: extend, and set
+        for what in ("extend", "set", "set-reference"):
+            plan, objs, instrs = Plan(), [], []
+            if what == "set-reference":
+                ins, T = decl_class(plan, objs)
+                instrs.append(ins)
+                B = next(nm)
+                objs.append(Obj(5, B, "K", ("base", "PK"), "classes"))
+                ins = Instr(Ref("obj", PK)); ins.extend.append(("classes", [_item(rng, B, "K", decl=2)])); instrs.append(ins)
+                plan.promise_target[2] = B
+                plan.ref_expect = [(B, T)]
+                for _ in range(m):
+                    u = Instr(rng.choice([_prom(2, B), _prom(2, B)])); u.set.append(("super", _prom(1, T))); instrs.append(u)
+            else:
+                f = next(nm)
+                objs.append(Obj(0, f, "F", ("base", "F"), "functions"))
+                ins = Instr(Ref("obj", F)); ins.extend.append(("functions", [_item(rng, f, "F", decl=1)])); instrs.append(ins)
+                plan.promise_target = {1: f}
+                sub = next(nm)
+                for j in range(m):
+                    u = Instr(_prom(1, f))
+                    if what == "extend":
+                        u.extend.append(("functions", [Item(name=sub, typ="F")]))
+                        objs.append(Obj(10 + j, sub, "F", objs[0], "functions"))
+                    else:
+                        u.set.append(("summary", "said twice"))
+                    instrs.append(u)
+            done(plan, instrs, objs, f"instruction-{what}", m)
+        # identical sync entries in one list: the first creates the object, the others find it
+        plan, objs, instrs = Plan(), [], []
+        ins, T = decl_class(plan, objs)
+        instrs.append(ins)
+        D = next(nm)
+        objs.append(Obj(10, D, "K", ("base", "PK"), "classes"))
+        hint = rng.random() < 0.5
+        use = Instr(Ref("obj", PK))
+        use.sync.append(("classes", [SItem(j > 0, None, D, "K", [], [("super", _prom(1, T))], hint=hint) for j in range(m)]))
+        instrs.append(use)
+        plan.ref_expect = [(D, T)]
+        done(plan, instrs, objs, "sync-entries", m)
+        # the same promise listed twice in a list of references (extend, set): the implementation may refuse the second
+        # reference — then it has to refuse it in every order
+        for op in ("extend", "set"):
+            plan, objs, instrs = Plan(), [], []
+            f = next(nm)
+            objs.append(Obj(0, f, "F", ("base", "F"), "functions"))
+            ins = Instr(Ref("obj", F)); ins.extend.append(("functions", [_item(rng, f, "F", decl=1)])); instrs.append(ins)
+            plan.promise_target = {1: f}
+            use = Instr(Ref("obj", C))
+            if op == "extend":
+                use.extend.append(("allocated_functions", [Item(ref=_prom(1, f)) for _ in range(m)]))
+            else:
+                use.set.append(("allocated_functions", [_prom(1, f) for _ in range(m)]))
+            instrs.append(use)
+            plan.expect, plan.model = "same", False
+            done(plan, instrs, objs, f"reference-{op}", m)
+    return plans
+
+
 def has_unstable_list(plan: Plan) -> bool:
     """some list receives a deferrable member that is not its last member"""
     def chk(members):
@@ -902,7 +1176,7 @@ class Tracer:
         self.orig_insert = M.ElementListCouplingMixin.insert
 
         def create(lst, *a, **kw):
-            tr.events.append([1, kw.get("name", "?")])
+            tr.events.append([1, kw.get("name", "")])
             return tr.orig_create(lst, *a, **kw)
 
         def insert(lst, index, value):
@@ -992,6 +1266,19 @@ def raw_find(model, base_ids, key):
             if el.get("id") == key or (el.get("name") == key and el.get("id") not in base_ids):
                 return el
     return None
+
+
+def raw_count(model, base_ids, typ, name) -> int:
+    """how many elements of the class `typ` with this name ("" = no name) the document added, read from the raw XML"""
+    n = 0
+    for tr in model._loader.trees.values():
+        for el in tr.root.iter():
+            if not isinstance(el.tag, str) or el.get("id") in base_ids:
+                continue
+            xt = el.get(XSI_TYPE)
+            if xt is not None and xt.rsplit(":", 1)[-1] == TYPEHINT[typ] and (el.get("name") or "") == name:
+                n += 1
+    return n
 
 
 def raw_list_order(model, base_ids, owner_key, member_keys):
@@ -1152,6 +1439,10 @@ def run(chk: lib.Check):
         if n <= limit_full:
             stats["exhaustive_docs"] += 1
         first = None
+        first_cls = None
+        want = {}
+        for o in plan.objs:
+            want[(o.typ, o.key)] = want.get((o.typ, o.key), 0) + 1
         unstable = has_unstable_list(plan)
         if unstable:
             stats["unstable_docs"] += 1
@@ -1161,8 +1452,9 @@ def run(chk: lib.Check):
             stats["runs"] += 1
             stats["deferrals"] += sum(1 for e in out[1] if e[0] == 0)
             inp = [[list(c) for c in base.init], [i.val() for i in instrs], [list(c) for c in obs_l], [list(c) for c in obs_v]]
-            cases.append((inp, out))
-            descr.append({"model": base.tag, "perm": list(perm), "yaml": ex["text"], "error": ex.get("exc")})
+            if plan.model:
+                cases.append((inp, out))
+                descr.append({"model": base.tag, "perm": list(perm), "yaml": ex["text"], "error": ex.get("exc")})
             key = f"{base.tag}:{hash_text(ex['text'])}"
             chk.note_case(key, nontrivial=any(e[0] == 0 for e in out[1]))
             status = out[0]
@@ -1171,8 +1463,16 @@ def run(chk: lib.Check):
             stats[cls if cls != "other" else "other_error"] += 1
             replay = {"model": base.tag, "yaml": ex["text"], "perm": list(perm), "expected": plan.expect,
                       "outcome": str(status), "error": ex.get("exc")}
+            # ---- oracle 0: whatever the outcome is (success or a certain error), it is the same for every order
+            if first_cls is None:
+                first_cls = (perm, str(status), ex["text"])
+            elif first_cls[1] != str(status) and (plan.expect == "same" or status == 0 or first_cls[1] == "0"):
+                replay["other_perm"], replay["other_yaml"], replay["other_outcome"] = list(first_cls[0]), first_cls[2], first_cls[1]
+                chk.violation(f"outcome-differs:{key}", f"the document ends as {status!r} ({ex.get('exc')}) in this order of its "
+                              f"instructions and as {first_cls[1]} in another", replay)
+                continue
             # ---- oracle 1: the outcome class the generator intended (undeclared -> Unfulfilled, duplicate -> ValueError)
-            if cls != plan.expect and not (plan.expect != "ok" and cls != "ok"):
+            if plan.expect != "same" and cls != plan.expect and not (plan.expect != "ok" and cls != "ok"):
                 what = {"unf": "a reference to an undeclared promise", "dup": "a promise id declared twice",
                         "ok": "a well-formed document"}[plan.expect]
                 chk.violation(f"outcome:{plan.expect}->{cls}:{key}",
@@ -1187,6 +1487,14 @@ def run(chk: lib.Check):
             for ok_, tk in plan.ref_expect:
                 if not raw_refs_ok(ex["model"], base.ids, ok_, tk):
                     chk.violation(f"misdirected:{key}", f"object {ok_!r} does not reference {tk!r} in the XML", replay)
+                    break
+            # ---- oracle 2a: every requested object exists, as often as the document asks for it and with the class
+            #      its list / its `_type` key says (raw XML: xsi:type and name of the added elements)
+            for (typ_, key_), n_ in want.items():
+                got_n = raw_count(ex["model"], base.ids, typ_, key_)
+                if got_n != n_:
+                    chk.violation(f"object-count:{key}", f"the document creates {n_} object(s) of class {TYPEHINT[typ_]} named {key_!r}, "
+                                  f"the XML has {got_n}", replay)
                     break
             # ---- oracle 2b: a list-valued `set` leaves exactly its members, in the order the document lists them
             for ok_, attr_, keys_ in plan.list_expect:
@@ -1248,6 +1556,14 @@ def run(chk: lib.Check):
             plan = gen_plan(rng, bases[tag], rng.choice([1, 2, 3]), stable=True, malform="dup",
                             feature_bias={"dup": variant, "set-list": 0.2})
             one_document(plan, bases[tag], limit_full, 8)
+    # the option matrix of a creation that has to wait, and value-equal actions waiting for the same promise
+    for plan in option_matrix(rng, bases["empty52"]):
+        one_document(plan, bases["empty52"], limit_full, 8)
+    for plan in twin_plans(rng, bases["empty52"]):
+        one_document(plan, bases["empty52"], limit_full, 8)
+    other = [t for t in bases if t != "empty52"][0]
+    for plan in rng.sample(option_matrix(rng, bases[other]), 3 if quick else 12) + rng.sample(twin_plans(rng, bases[other]), 2 if quick else 10):
+        one_document(plan, bases[other], 2, 3)
     # the unstable stream (known finding: sibling order)
     for d in range(8 if quick else 40):
         base = bases["empty52"]
